@@ -72,12 +72,15 @@ Section P.
   Lemma enters_spawn t g p pr h : enters (glog (fst (spawn cfg t g p pr h))) = enters (glog g).
   Proof. unfold spawn. rewrite enters_begin. reflexivity. Qed.
 
-  Lemma enters_resume t g b : enters (glog (fst (resume cfg t g b))) = enters (glog g).
+  Lemma enters_resume t g b h : enters (glog (fst (resume cfg t g b h))) = enters (glog g).
   Proof.
     unfold resume. repeat destr; try reflexivity.
     - now rewrite enters_spawn.
     - now rewrite enters_begin.
   Qed.
+
+  Lemma enters_resume_read t g b : enters (glog (fst (resume_read t g b))) = enters (glog g).
+  Proof. unfold resume_read. repeat destr; reflexivity. Qed.
 
   Lemma enters_sel t g p a k n0 off fb :
     enters (glog (fst (sel_step cfg t g p a k n0 off fb))) = enters (glog g).
@@ -92,16 +95,16 @@ Section P.
     unfold act_task. destruct x.
     - reflexivity.
     - pose proof (enters_spawn t g p0 pr h). destruct (spawn _ _ _ _ _ _); exact H.
-    - pose proof (enters_begin t (upd_task g a (t_leave TPending w)) p a KN (worker_hint w) true).
+    - pose proof (enters_begin t (upd_task g a (t_set TPending)) p a KN (worker_hint w) true).
       destruct (begin_enqueue _ _ _ _ _ _ _ _); exact H.
     - destruct direct; [reflexivity|].
-      pose proof (enters_begin t (upd_task g a (t_leave TPending w)) p a (qkind_of (cfg p) PBoost) (worker_hint w) true).
+      pose proof (enters_begin t (upd_task g a (t_set TPending)) p a (qkind_of (cfg p) PBoost) (worker_hint w) true).
       destruct (begin_enqueue _ _ _ _ _ _ _ _); exact H.
     - reflexivity.
     - reflexivity.
-    - pose proof (enters_resume t g b). destruct (resume _ _ _ _); exact H.
+    - pose proof (enters_resume_read t g b). destruct (resume_read _ _ _); exact H.
     - destruct (get_task g b); [|reflexivity]. destruct (Nat.eqb _ _).
-      + pose proof (enters_begin t (log_ev (upd_task g a (t_leave TPending w)) (EYieldTo b t)) p a KN (worker_hint w) true).
+      + pose proof (enters_begin t (log_ev (upd_task g a (t_set TPending)) (EYieldTo b t)) p a KN (worker_hint w) true).
         destruct (begin_enqueue _ _ _ _ _ _ _ _); exact H.
       + pose proof (enters_begin t (log_ev g (EYieldTo b t)) (tk_pool t0) b KN HNone false).
         destruct (begin_enqueue _ _ _ _ _ _ _ _); exact H.
@@ -111,7 +114,7 @@ Section P.
   Proof.
     unfold act_ext. destruct x; try reflexivity.
     - pose proof (enters_spawn t g p pr h). destruct (spawn _ _ _ _ _ _); exact H.
-    - pose proof (enters_resume t g b). destruct (resume _ _ _ _); exact H.
+    - pose proof (enters_resume_read t g b). destruct (resume_read _ _ _); exact H.
   Qed.
 
   Lemma enters_try_enter t g l p w b :
@@ -140,7 +143,7 @@ Section P.
     - destruct (lrole l) eqn:Er.
       + left. destruct o; [reflexivity|apply enters_act_ext].
       + destruct (cur l) eqn:Ec.
-        * left. destruct o; [reflexivity|apply enters_act_task].
+        * left. destruct o; [reflexivity|]. destruct (is_do_yield a); [reflexivity|apply enters_act_task].
         * destruct (nxt l) eqn:En.
           -- destruct (enters_try_enter t g (mk_local (RWorker p w) Idle None None) p w n) as [H|(tk & H1 & H2 & H3)];
                [now left|right]. exists p, w, n, tk. repeat split; auto.
@@ -150,6 +153,9 @@ Section P.
                as [H|(tk & H1 & H2 & H3)]; [now left|right]. exists p, w, n, tk. repeat split; auto.
     - left. pose proof (enters_sel t g p a k n0 off fb). destruct (sel_step _ _ _ _ _ _ _ _); exact H.
     - left. apply enters_hold.
+    - left. destruct (lrole l); [reflexivity|]. destruct (cur l); reflexivity.
+    - left. destruct (lrole l); [reflexivity|]. destruct (cur l); [apply enters_act_task|reflexivity].
+    - left. pose proof (enters_resume t g b h). destruct (resume _ _ _ _ _); exact H.
   Qed.
 End P.
 
@@ -166,7 +172,10 @@ Section Inv.
   Definition static_ok (c : pool_cfg) :=
     pSteal c = false /\ pElastic c = false /\ (pPrio c = false \/ pH c = pW c) /\ 0 < pW c /\
     (Z.of_nat (pW c) <= 32767)%Z.
-  Definition no_yieldto (g : gstate) (a : nat) := forall t, ~ In (EYieldTo a t) (glog g).
+  (* the events that void the guarantee for task a: a is named in this_thread::yield_to *)
+  Definition guard_ev (a : nat) (e : event) : Prop :=
+    match e with EYieldTo b _ => b = a | _ => False end.
+  Definition no_yieldto (g : gstate) (a : nat) := forall e, guard_ev a e -> ~ In e (glog g).
   Definition pinned (g : gstate) (a : nat) (tk : task) :=
     get_task g a = Some tk /\ static_ok (cfg (tk_pool tk)) /\
     (pPrio (cfg (tk_pool tk)) = false \/ tk_prio tk <> PLow) /\ no_yieldto g a.
@@ -185,7 +194,7 @@ Section Inv.
     gi_pq : forall a tk q, pinned g a tk -> In a (queues g q) -> home_q tk q;
     gi_plast : forall a tk, pinned g a tk ->
                (tk_last tk = None \/ tk_last tk = Some (tk_home tk)) /\
-               (tk_st tk = TSuspended -> tk_last tk = Some (tk_home tk));
+               (tk_agent tk = true -> tk_last tk = Some (tk_home tk));
     gi_penter : forall a tk ph p w t, pinned g a tk -> In (EEnter a ph p w t) (glog g) -> w = tk_home tk;
     gi_home : forall a tk, get_task g a = Some tk -> 0 < pW (cfg (tk_pool tk)) ->
               tk_home tk < pW (cfg (tk_pool tk))
@@ -199,6 +208,9 @@ Section Inv.
     li_pc : match pc l with
             | Idle => True
             | Sel p a _ _ _ _ | Hold p a _ _ _ _ => pElastic (cfg p) = true /\ tk_is g a p
+            | Start | Leave _ => True
+            | Res b h => (exists tk, get_task g b = Some tk) /\
+                         forall tk, pinned g b tk -> h = worker_hint (tk_home tk)
             end;
     li_pcur : forall a tk, pinned g a tk -> cur l = Some a -> roles t = RWorker (tk_pool tk) (tk_home tk);
     li_pnxt : forall a tk, pinned g a tk -> nxt l = Some a -> roles t = RWorker (tk_pool tk) (tk_home tk)
@@ -248,11 +260,11 @@ Section Inv.
   Qed.
 
   Lemma pinned_same g g' a tk :
-    tasks g' = tasks g -> (forall t, In (EYieldTo a t) (glog g) -> In (EYieldTo a t) (glog g')) ->
+    tasks g' = tasks g -> (forall e, In e (glog g) -> In e (glog g')) ->
     pinned g' a tk -> pinned g a tk.
   Proof.
     unfold pinned, get_task, no_yieldto. intros Ht Hl (H1 & H2 & H3 & H4). rewrite Ht in H1.
-    split; [assumption|]. split; [assumption|]. split; [assumption|]. intros t Hin. exact (H4 t (Hl t Hin)).
+    split; [assumption|]. split; [assumption|]. split; [assumption|]. intros e He Hin. exact (H4 e He (Hl e Hin)).
   Qed.
 
   Lemma GI_same g g' : tasks g' = tasks g -> queues g' = queues g -> glog g' = glog g -> GI g -> GI g'.
@@ -274,14 +286,14 @@ Section Inv.
 
   (* events that carry no obligation of their own *)
   Definition misc_ev (e : event) : Prop :=
-    match e with EEnq _ _ _ | EYieldTo _ _ | EDivert _ _ _ _ _ => True | _ => False end.
+    match e with EEnq _ _ _ | EYieldTo _ _ | EDivert _ _ _ _ _ | EWake _ _ _ => True | _ => False end.
 
   Lemma GI_log_misc g e : misc_ev e -> GI g -> GI (log_ev g e).
   Proof.
     intros He G.
     assert (P : forall a tk, pinned (log_ev g e) a tk -> pinned g a tk).
     { intros a tk. apply pinned_same; [reflexivity|]. intros t Hin. now right. }
-    assert (I : forall e', (match e' with EEnq _ _ _ | EYieldTo _ _ | EDivert _ _ _ _ _ => False | _ => True end) ->
+    assert (I : forall e', (match e' with EEnq _ _ _ | EYieldTo _ _ | EDivert _ _ _ _ _ | EWake _ _ _ => False | _ => True end) ->
                            In e' (glog (log_ev g e)) -> In e' (glog g)).
     { intros e' He' [<-|Hin]; [|assumption]. destruct e; cbn in *; tauto. }
     constructor; cbn [queues log_ev].
@@ -354,7 +366,7 @@ Section Inv.
     (forall tk, same_static tk (f tk)) ->
     (forall tk, pinned g a tk ->
        (tk_last (f tk) = None \/ tk_last (f tk) = Some (tk_home tk)) /\
-       (tk_st (f tk) = TSuspended -> tk_last (f tk) = Some (tk_home tk))) ->
+       (tk_agent (f tk) = true -> tk_last (f tk) = Some (tk_home tk))) ->
     GI g -> GI (upd_task g a f).
   Proof.
     intros Hf Hl G. pose proof (gext_upd g a f Hf) as X.
@@ -440,15 +452,15 @@ Section Inv.
     assert (tk2 = tk') by congruence. subst tk2. split; [|assumption].
     destruct S as (S1 & S2 & S3). unfold pinned. rewrite <- S1, <- S3.
     split; [assumption|]. split; [assumption|]. split; [assumption|].
-    intros t Hin. apply (H4 t). eapply In_ext; eauto.
+    intros e He Hin. apply (H4 e He). eapply In_ext; eauto.
   Qed.
 
   Lemma GI_add g tk pr h t :
-    tk_st tk = TPending -> tk_last tk = None -> tk_prio tk = stored_prio pr ->
+    tk_st tk = TPending -> tk_last tk = None -> tk_agent tk = false -> tk_prio tk = stored_prio pr ->
     tk_home tk = fst (base_queue (pW (cfg (tk_pool tk))) (rr g (tk_pool tk)) h) ->
     GI g -> GI (log_ev (add_task g tk) (ESubmit (length (tasks g)) (tk_pool tk) pr h t)).
   Proof.
-    intros Hst Hla Hpr Hho G.
+    intros Hst Hla Hag Hpr Hho G.
     set (g' := log_ev (add_task g tk) (ESubmit (length (tasks g)) (tk_pool tk) pr h t)).
     assert (X : gext g g') by (eapply gext_trans; [apply gext_add|apply gext_log]).
     assert (C : forall b tk', get_task g' b = Some tk' ->
@@ -482,7 +494,7 @@ Section Inv.
       apply (gi_pq _ G _ _ _ (P _ _ (conj Hg Hr) H1) Hin).
     - intros b tk' Hp. destruct Hp as [Hg Hr]. destruct (C _ _ Hg) as [H1|(H1 & -> & H2)].
       + apply (gi_plast _ G _ _ (P _ _ (conj Hg Hr) H1)).
-      + rewrite Hla, Hst. split; [now left|discriminate].
+      + rewrite Hla, Hag. split; [now left|discriminate].
     - intros b tk' ph p w t0 Hp Hin. apply I in Hin; [|exact Logic.I].
       destruct (gi_enter _ G _ _ _ _ _ Hin) as [_ (tk0 & H0 & _)]. destruct Hp as [Hg Hr].
       destruct (C _ _ Hg) as [H1|(H1 & _ & H2)]; [|congruence].
@@ -546,7 +558,12 @@ Section Inv.
       exists p, w, ph. split; [assumption|]. split; [eapply tk_is_ext; eauto|eapply In_ext; eauto].
     - intros b Hb. destruct (li_nxt _ _ _ L _ Hb) as (p & w & H1 & H2).
       exists p, w. split; [assumption|eapply tk_is_ext; eauto].
-    - pose proof (li_pc _ _ _ L) as H. destruct (pc l); auto; destruct H; split; auto; eapply tk_is_ext; eauto.
+    - pose proof (li_pc _ _ _ L) as H. destruct (pc l); auto.
+      + destruct H; split; auto; eapply tk_is_ext; eauto.
+      + destruct H; split; auto; eapply tk_is_ext; eauto.
+      + destruct H as [(tk & E) H]. split.
+        * destruct (ge_fwd _ _ X _ _ E) as (tk' & E' & _). now exists tk'.
+        * intros tk' Hp. destruct (pinned_back _ _ _ _ _ X Hp E) as [Hp0 (S1 & S2 & S3)]. rewrite S2. now apply H.
     - intros a tk' Hp Ha. destruct (li_cur _ _ _ L _ Ha) as (p & w & ph & H1 & (tk & H2 & _) & H3).
       destruct (pinned_back _ _ _ _ _ X Hp H2) as [Hp0 (S1 & S2 & S3)]. rewrite S1, S2.
       apply (li_pcur _ _ _ L _ _ Hp0 Ha).
@@ -560,10 +577,20 @@ Section Inv.
     match c with
     | Idle => True
     | Sel p a _ _ _ _ | Hold p a _ _ _ _ => pElastic (cfg p) = true /\ tk_is g a p
+    | Start | Leave _ => True
+    | Res b h => (exists tk, get_task g b = Some tk) /\
+                 forall tk, pinned g b tk -> h = worker_hint (tk_home tk)
     end.
 
   Lemma pc_ok_ext g g' c : gext g g' -> pc_ok g c -> pc_ok g' c.
-  Proof. intros X H. destruct c; cbn in *; auto; destruct H; split; auto; eapply tk_is_ext; eauto. Qed.
+  Proof.
+    intros X H. destruct c; cbn in *; auto.
+    - destruct H; split; auto; eapply tk_is_ext; eauto.
+    - destruct H; split; auto; eapply tk_is_ext; eauto.
+    - destruct H as [(tk & E) H]. split.
+      + destruct (ge_fwd _ _ X _ _ E) as (tk' & E' & _). now exists tk'.
+      + intros tk' Hp. destruct (pinned_back _ _ _ _ _ X Hp E) as [Hp0 (S1 & S2 & S3)]. rewrite S2. now apply H.
+  Qed.
 
   Lemma qpool_queue_of c p k n : qpool (queue_of c p k n) = p.
   Proof. now destruct k. Qed.
@@ -604,7 +631,7 @@ Section Inv.
     intros G. unfold spawn.
     set (n0 := fst (base_queue (pW (cfg p)) (rr g p) h)).
     set (tk := {| tk_pool := p; tk_prio := stored_prio pr; tk_st := TPending; tk_last := None;
-                  tk_phase := 0; tk_home := n0 |}).
+                  tk_phase := 0; tk_home := n0; tk_agent := false |}).
     set (g1 := log_ev (add_task g tk) (ESubmit (length (tasks g)) p pr h t)).
     assert (G1 : GI g1) by (apply (GI_add g tk pr h t); auto).
     assert (X1 : gext g g1) by (eapply gext_trans; [apply gext_add|apply gext_log]).
@@ -624,7 +651,9 @@ Section Inv.
 
   Lemma same_static_set st tk : same_static tk (t_set st tk).
   Proof. now repeat split. Qed.
-  Lemma same_static_leave st w tk : same_static tk (t_leave st w tk).
+  Lemma same_static_store w tk : same_static tk (t_store w tk).
+  Proof. now repeat split. Qed.
+  Lemma same_static_start w tk : same_static tk (t_start w tk).
   Proof. now repeat split. Qed.
   Lemma same_static_enter tk : same_static tk (t_enter tk).
   Proof. now repeat split. Qed.
@@ -642,10 +671,26 @@ Section Inv.
     rewrite base_queue_worker; [|assumption|apply Hs]. cbn [fst]. unfold home_q. now apply queue_home.
   Qed.
 
-  Lemma resume_ok t g b :
-    GI g -> let r := resume cfg t g b in gext g (fst r) /\ GI (fst r) /\ pc_ok (fst r) (snd r).
+  Lemma resume_read_ok t g b :
+    GI g -> let r := resume_read t g b in gext g (fst r) /\ GI (fst r) /\ pc_ok (fst r) (snd r).
   Proof.
-    intros G. unfold resume. destruct (get_task g b) as [tk|] eqn:E;
+    intros G. unfold resume_read. destruct (get_task g b) as [tk|] eqn:E;
+      [|cbn; split; [apply gext_refl|split; [assumption|exact Logic.I]]].
+    destruct (tk_agent tk) eqn:Ea; [|cbn; split; [apply gext_refl|split; [assumption|exact Logic.I]]].
+    cbn [fst snd]. split; [apply gext_log|]. split; [apply GI_log_misc; [exact Logic.I|assumption]|].
+    split; [now exists tk|].
+    intros tk' Hp'.
+    assert (Hp : pinned g b tk').
+    { revert Hp'. apply pinned_same; [reflexivity|]. intros e Hin. now right. }
+    pose proof (pinned_fun _ _ _ _ Hp E) as ->.
+    destruct (gi_plast _ G _ _ Hp) as [_ Hs]. now rewrite (Hs Ea).
+  Qed.
+
+  Lemma resume_ok t g b h :
+    GI g -> pc_ok g (Res b h) ->
+    let r := resume cfg t g b h in gext g (fst r) /\ GI (fst r) /\ pc_ok (fst r) (snd r).
+  Proof.
+    intros G [_ Hh]. unfold resume. destruct (get_task g b) as [tk|] eqn:E;
       [|cbn; split; [apply gext_refl|split; [assumption|exact Logic.I]]].
     destruct (tk_st tk) eqn:Es; try (cbn; split; [apply gext_refl|split; [assumption|exact Logic.I]]).
     - apply spawn_ok. exact G.
@@ -653,12 +698,11 @@ Section Inv.
       assert (X1 : gext g g1) by (apply gext_upd; apply same_static_set).
       assert (G1 : GI g1).
       { apply GI_upd; [apply same_static_set| |assumption]. intros tk0 Hp. cbn [t_set tk_last tk_st].
-        split; [apply (gi_plast _ G _ _ Hp)|discriminate]. }
-      destruct (begin_ok t g1 (tk_pool tk) b (qkind_of (cfg (tk_pool tk)) (tk_prio tk))
-                         (last_hint (tk_last tk)) false G1) as (X2 & G2 & P2).
+        apply (gi_plast _ G _ _ Hp). }
+      destruct (begin_ok t g1 (tk_pool tk) b (qkind_of (cfg (tk_pool tk)) (tk_prio tk)) h false G1) as (X2 & G2 & P2).
       + eapply tk_is_ext; [exact X1|]. exists tk. now split.
       + intros tk' Hp'. destruct (pinned_back _ _ _ _ _ X1 Hp' E) as [Hp (S1 & S2 & S3)].
-        destruct (gi_plast _ G _ _ Hp) as [_ Hl]. rewrite (Hl Es). cbn [last_hint].
+        rewrite (Hh _ Hp).
         assert (Hq : home_q tk (queue_of (cfg (tk_pool tk)) (tk_pool tk) (qkind_of (cfg (tk_pool tk)) (tk_prio tk))
                         (fst (base_queue (pW (cfg (tk_pool tk))) (rr g1 (tk_pool tk)) (worker_hint (tk_home tk)))))).
         { pose proof Hp as (_ & _ & Hpr & _).
@@ -750,7 +794,7 @@ Section Inv.
       assert (X1 : gext g g1) by (apply gext_upd; apply same_static_enter).
       assert (G1 : GI g1).
       { apply GI_upd; [apply same_static_enter| |assumption]. intros tk0 Hp. cbn [t_enter tk_last tk_st].
-        split; [apply (gi_plast _ G _ _ Hp)|discriminate]. }
+        apply (gi_plast _ G _ _ Hp). }
       set (g2 := log_ev g1 (EEnter b (S (tk_phase tk)) p w t)).
       assert (X2 : gext g g2) by (eapply gext_trans; [exact X1|apply gext_log]).
       assert (Hw2 : forall g', gext g g' -> forall tk', pinned g' b tk' -> w = tk_home tk' /\ p = tk_pool tk').
@@ -803,15 +847,37 @@ Section Inv.
     intros tk Hp. pose proof (li_pcur _ _ _ L _ _ Hp Hc) as H. rewrite <- R in H. inv H. now split.
   Qed.
 
-  (* leaving the running task a on worker (p,w): last worker := w *)
-  Lemma leave_upd g t l p w a st :
+  (* do_yield on worker (p,w), first step: last worker := w (the task is still active) *)
+  Lemma store_upd g t l p w a :
     GI g -> LI g t l -> lrole l = RWorker p w -> cur l = Some a ->
-    let g1 := upd_task g a (t_leave st w) in gext g g1 /\ GI g1.
+    let g1 := upd_task g a (t_store w) in gext g g1 /\ GI g1.
   Proof.
     intros G L Hr Hc. destruct (cur_facts _ _ _ _ _ _ G L Hr Hc) as (R & T & _ & P).
-    split; [apply gext_upd; apply same_static_leave|].
-    apply GI_upd; [apply same_static_leave| |assumption].
-    intros tk Hp. cbn [t_leave tk_last tk_st]. destruct (P _ Hp) as [_ <-]. split; [now right|reflexivity].
+    split; [apply gext_upd; apply same_static_store|].
+    apply GI_upd; [apply same_static_store| |assumption].
+    intros tk Hp. cbn [t_store tk_last tk_agent]. destruct (P _ Hp) as [_ <-]. split; [now right|reflexivity].
+  Qed.
+
+  (* the scheduling loop on worker (p,w), right after pending -> active: last worker := w *)
+  Lemma start_upd g t l p w a :
+    GI g -> LI g t l -> lrole l = RWorker p w -> cur l = Some a ->
+    let g1 := upd_task g a (t_start w) in gext g g1 /\ GI g1.
+  Proof.
+    intros G L Hr Hc. destruct (cur_facts _ _ _ _ _ _ G L Hr Hc) as (R & T & _ & P).
+    split; [apply gext_upd; apply same_static_start|].
+    apply GI_upd; [apply same_static_start| |assumption].
+    intros tk Hp. cbn [t_start tk_last tk_agent]. destruct (P _ Hp) as [_ <-]. split; [now right|reflexivity].
+  Qed.
+
+  (* the running task a leaves worker (p,w): new state only *)
+  Lemma leave_upd g t l p w a st :
+    GI g -> LI g t l -> lrole l = RWorker p w -> cur l = Some a ->
+    let g1 := upd_task g a (t_set st) in gext g g1 /\ GI g1.
+  Proof.
+    intros G L Hr Hc.
+    split; [apply gext_upd; apply same_static_set|].
+    apply GI_upd; [apply same_static_set| |assumption].
+    intros tk Hp. cbn [t_set tk_last tk_st]. apply (gi_plast _ G _ _ Hp).
   Qed.
 
   (* re-queue of the task that just left worker (p,w) with hint = w *)
@@ -856,7 +922,7 @@ Section Inv.
       destruct (leave_upd g t l p w a TPending G L Hr Hc) as (X1 & G1).
       pose proof (requeue_ok g _ t l p w a PNormal true G L Hr Hc X1 G1) as H.
       rewrite qkind_normal in H. destruct H as (X & G' & P'); [discriminate|].
-      destruct (begin_enqueue cfg t (upd_task g a (t_leave TPending w)) p a KN (worker_hint w) true) as [g2 c2].
+      destruct (begin_enqueue cfg t (upd_task g a (t_set TPending)) p a KN (worker_hint w) true) as [g2 c2].
       cbn [fst snd] in *. split; [assumption|]. split; [assumption|]. now apply LI_leave with g.
     - (* boost *)
       destruct (leave_upd g t l p w a TPending G L Hr Hc) as (X1 & G1). destruct direct.
@@ -870,7 +936,7 @@ Section Inv.
           destruct (pinned_back _ _ _ _ _ X1 Hp' E) as [Hp (S1 & S2 & S3)]. destruct (P _ Hp) as [Hq Hh].
           rewrite S1, S2, Hq, Hh. assumption.
       + destruct (requeue_ok g _ t l p w a PBoost true G L Hr Hc X1 G1) as (X & G' & P'); [discriminate|].
-        destruct (begin_enqueue cfg t (upd_task g a (t_leave TPending w)) p a (qkind_of (cfg p) PBoost) (worker_hint w) true) as [g2 c2].
+        destruct (begin_enqueue cfg t (upd_task g a (t_set TPending)) p a (qkind_of (cfg p) PBoost) (worker_hint w) true) as [g2 c2].
         cbn [fst snd] in *. split; [assumption|]. split; [assumption|]. now apply LI_leave with g.
     - (* suspend *)
       destruct (leave_upd g t l p w a TSuspended G L Hr Hc) as (X1 & G1). cbn [fst snd].
@@ -879,16 +945,16 @@ Section Inv.
       assert (X1 : gext g (upd_task g a (t_set TTerminated))) by (apply gext_upd; apply same_static_set).
       cbn [fst snd]. split; [assumption|]. split.
       + apply GI_upd; [apply same_static_set| |assumption]. intros tk Hp. cbn [t_set tk_last tk_st].
-        split; [apply (gi_plast _ G _ _ Hp)|discriminate].
+        apply (gi_plast _ G _ _ Hp).
       + apply LI_leave with g; auto. exact Logic.I.
-    - (* resume *) destruct (resume_ok t g b G) as (X & G' & P').
-      destruct (resume cfg t g b) as [g1 c1]. cbn [fst snd] in *.
+    - (* resume *) destruct (resume_read_ok t g b G) as (X & G' & P').
+      destruct (resume_read t g b) as [g1 c1]. cbn [fst snd] in *.
       split; [assumption|]. split; [assumption|]. now apply LI_set_pc with g.
     - (* yield_to *)
       destruct (get_task g b) as [tb|] eqn:Eb; [|cbn; split; [apply gext_refl|split; assumption]].
       destruct (Nat.eqb_spec (tk_pool tb) p) as [Hpb|Hpb].
       + destruct (leave_upd g t l p w a TPending G L Hr Hc) as (X1 & G1).
-        set (g1 := log_ev (upd_task g a (t_leave TPending w)) (EYieldTo b t)).
+        set (g1 := log_ev (upd_task g a (t_set TPending)) (EYieldTo b t)).
         assert (X1' : gext g g1) by (eapply gext_trans; [exact X1|apply gext_log]).
         assert (G1' : GI g1) by (apply GI_log_misc; [exact Logic.I|assumption]).
         pose proof (requeue_ok g g1 t l p w a PNormal true G L Hr Hc X1' G1') as H.
@@ -902,7 +968,7 @@ Section Inv.
         * assumption.
         * discriminate.
         * intros b' tk' Hp' Hb. injection Hb as Hb. subst b'. exfalso.
-          destruct Hp' as (_ & _ & _ & Hny). apply (Hny t).
+          destruct Hp' as (_ & _ & _ & Hny). apply (Hny (EYieldTo b t)); [reflexivity|].
           assert (X12 : gext g1 g2).
           { pose proof (begin_gext t g1 p a KN (worker_hint w) true) as F. now rewrite Eq in F. }
           eapply In_ext; [exact X12|]. now left.
@@ -911,7 +977,7 @@ Section Inv.
         assert (G1 : GI g1) by (apply GI_log_misc; [exact Logic.I|assumption]).
         destruct (begin_ok t g1 (tk_pool tb) b KN HNone false G1) as (X2 & G2 & P2).
         * exists tb. now split.
-        * intros tk' (_ & _ & _ & Hny). exfalso. apply (Hny t). now left.
+        * intros tk' (_ & _ & _ & Hny). exfalso. apply (Hny (EYieldTo b t)); [reflexivity|]. now left.
         * destruct (begin_enqueue cfg t g1 (tk_pool tb) b KN HNone false) as [g2 c2]. cbn [fst snd] in *.
           assert (X : gext g g2) by (eapply gext_trans; eauto).
           split; [assumption|]. split; [assumption|]. now apply LI_set_pc with g.
@@ -929,8 +995,8 @@ Section Inv.
     - destruct (spawn_ok t g p pr h G) as (X & G' & P').
       destruct (spawn cfg t g p pr h) as [g1 c1]. cbn [fst snd] in *.
       split; [assumption|]. split; [assumption|]. now apply LI_set_pc with g.
-    - destruct (resume_ok t g b G) as (X & G' & P').
-      destruct (resume cfg t g b) as [g1 c1]. cbn [fst snd] in *.
+    - destruct (resume_read_ok t g b G) as (X & G' & P').
+      destruct (resume_read t g b) as [g1 c1]. cbn [fst snd] in *.
       split; [assumption|]. split; [assumption|]. now apply LI_set_pc with g.
   Qed.
 
@@ -944,7 +1010,9 @@ Section Inv.
     - destruct (lrole l) eqn:Er.
       + destruct o; [exact Triv|]. now apply act_ext_ok.
       + destruct (cur l) eqn:Ec.
-        * destruct o; [exact Triv|]. now apply act_task_ok.
+        * destruct o as [|x]; [exact Triv|]. destruct (is_do_yield x); [|now apply act_task_ok].
+          destruct (store_upd g t l p w n G L Er Ec) as (X1 & G1). cbn [fst snd].
+          split; [assumption|]. split; [assumption|]. rewrite <- Er, <- Ec. apply LI_set_pc with g; auto.
         * pose proof (li_role _ _ _ L) as R. rewrite Er in R. symmetry in R.
           destruct (nxt l) eqn:En.
           -- destruct (li_nxt _ _ _ L _ En) as (p' & w' & H1 & H2). rewrite R in H1. inv H1.
@@ -969,6 +1037,20 @@ Section Inv.
       split; [assumption|]. split; [assumption|]. now apply LI_set_pc with g.
     - destruct (hold_ok t g p a k n0 n locked G Hpc) as (X & G').
       cbn [fst snd]. split; [assumption|]. split; [assumption|]. apply LI_set_pc with g; auto. exact Logic.I.
+    - assert (L' : LI g t (mk_local (lrole l) Idle (cur l) (nxt l))).
+      { apply LI_set_pc with g; [apply gext_refl|assumption|exact Logic.I]. }
+      destruct (lrole l) eqn:Er; [split; [apply gext_refl|split; assumption]|].
+      destruct (cur l) eqn:Ec; [|split; [apply gext_refl|split; assumption]].
+      destruct (start_upd g t l p w n G L Er Ec) as (X1 & G1). cbn [fst snd].
+      split; [assumption|]. split; [assumption|]. rewrite <- Er, <- Ec. apply LI_set_pc with g; auto.
+    - assert (L' : LI g t (mk_local (lrole l) Idle (cur l) (nxt l))).
+      { apply LI_set_pc with g; [apply gext_refl|assumption|exact Logic.I]. }
+      destruct (lrole l) eqn:Er; [split; [apply gext_refl|split; assumption]|].
+      destruct (cur l) eqn:Ec; [|split; [apply gext_refl|split; assumption]].
+      apply act_task_ok; auto.
+    - destruct (resume_ok t g b h G Hpc) as (X & G' & P').
+      destruct (resume cfg t g b h) as [g1 c1]. cbn [fst snd] in *.
+      split; [assumption|]. split; [assumption|]. now apply LI_set_pc with g.
   Qed.
 
   (* ---------------------------------------------------------------- whole runs *)
@@ -1042,6 +1124,11 @@ Qed.
 Lemma stored_not_low pr : pr <> PLow -> stored_prio pr <> PLow.
 Proof. destruct pr; cbn; congruence. Qed.
 
+Lemma no_yieldto_of g a : (forall t', ~ In (EYieldTo a t') (glog g)) -> no_yieldto g a.
+Proof.
+  intros Hny e He. destruct e as [| | | |b t'| |]; cbn in He; try contradiction. subst b. apply Hny.
+Qed.
+
 (* 3. *)
 Lemma static_hint_pinned_lemma cfg roles sched a p pr h t0 u ph p' w t :
   let g := run_g cfg roles sched in
@@ -1055,7 +1142,7 @@ Proof.
   destruct (runs_on_own_pool_lemma cfg roles sched _ _ _ _ _ _ _ _ _ Hs He) as [-> Hr].
   destruct (gi_sub _ _ _ G _ _ _ _ _ Hs) as (tk & H1 & H2 & H3 & H4).
   assert (Hp : pinned cfg (run_g cfg roles sched) a tk).
-  { split; [assumption|]. rewrite H2. split; [assumption|]. split; [|assumption].
+  { split; [assumption|]. rewrite H2. split; [assumption|]. split; [|now apply no_yieldto_of].
     destruct Hpr as [?|Hpr]; [now left|right]. rewrite H3. now apply stored_not_low. }
   pose proof (gi_penter _ _ _ G _ _ _ _ _ _ Hp He) as Hw. rewrite (H4 _ Hu) in Hw.
   split; [reflexivity|]. split; assumption.
@@ -1074,7 +1161,7 @@ Proof.
   destruct (runs_on_own_pool_lemma cfg roles sched _ _ _ _ _ _ _ _ _ Hs He2) as [-> _].
   destruct (gi_sub _ _ _ G _ _ _ _ _ Hs) as (tk & H1 & H2 & H3 & H4).
   assert (Hp : pinned cfg (run_g cfg roles sched) a tk).
-  { split; [assumption|]. rewrite H2. split; [assumption|]. split; [|assumption].
+  { split; [assumption|]. rewrite H2. split; [assumption|]. split; [|now apply no_yieldto_of].
     destruct Hpr as [?|Hpr]; [now left|right]. rewrite H3. now apply stored_not_low. }
   rewrite (gi_penter _ _ _ G _ _ _ _ _ _ Hp He1), (gi_penter _ _ _ G _ _ _ _ _ _ Hp He2).
   repeat split; auto. pose proof (gi_home _ _ _ G _ _ H1) as Hh. rewrite H2 in Hh. apply Hh. apply Hok.
@@ -1127,7 +1214,8 @@ Definition yt_sched : list (nat * oracle) :=
   [ (10, OAct (ASpawn 0 PNormal (HThread 0)));
     (10, OAct (ASpawn 0 PNormal (HThread 1)));
     (0, OPop SrcOwnN 0); (1, OPop SrcOwnN 0);
-    (0, OAct AYield);
+    (0, OAct AEnd); (1, OAct AEnd);              (* scheduling loop: store last worker, invoke *)
+    (0, OAct AYield); (0, OAct AYield);          (* do_yield: store last worker; switch out *)
     (1, OAct (AYieldTo 0));
     (1, OPop SrcOwnN 0) ].                       (* next_thrd: worker 1 enters task 0 *)
 
@@ -1145,8 +1233,8 @@ Qed.
 (* boost: static-priority with 2 high-priority queues for 4 workers; task hinted to worker 3 *)
 Definition boost_sched : list (nat * oracle) :=
   [ (10, OAct (ASpawn 0 PNormal (HThread 3)));
-    (3, OPop SrcOwnN 0);
-    (3, OAct (ABoost false));                    (* yield_k(k >= 16): pending_boost *)
+    (3, OPop SrcOwnN 0); (3, OAct AEnd);         (* enter; store last worker, invoke *)
+    (3, OAct (ABoost false)); (3, OAct AEnd);    (* yield_k(k >= 16): do_yield store; pending_boost *)
     (1, OPop SrcOwnH 0) ].
 
 Lemma static_hint_boost_refuted_lemma :
